@@ -1,4 +1,4 @@
-import BobModel.Proofs.C20Jobs
+import BobModel.Proofs.C20Order
 /-
 C20 — Jenkins job graph is acyclic, complete and faithful: property theorems about the model
 `BobModel/Model/Jenkins.lean` of pym/bob/cmds/jenkins/jenkins.py (JobNameCalculator.sanitize,
@@ -32,6 +32,24 @@ theorem merge_test_is_reachability {s : St} {i j : Nat} (h : Inv g n s) (hi : s.
     comparable s i j = true ↔ (QReachV g s.v2j i j ∨ QReachV g s.v2j j i) := by
   unfold comparable
   rw [Bool.or_eq_true, h.reaches_iff hi hj, h.reaches_iff hj hi]
+
+/-- whenever the test `i.childs >= (j.pkgs|j.childs)` holds for two distinct jobs, the inclusion is strict
+(`i` itself is in `i.childs` but not reachable from `j`): replacing `>=` by `>` in the merge loop is not a
+change of behaviour (the corresponding mutant is equivalent) -/
+theorem superset_test_is_strict {s : St} {i j : Nat} (h : Inv g n s) (hi : s.v2j i = some i)
+    (hj : s.v2j j = some j) (hij : i ≠ j) (ht : reaches s i j = true) :
+    i ∈ (s.job i).childs ∧ i ∉ union (s.job j).pkgs (s.job j).childs := by
+  have hii : i ∈ (s.job i).childs := h.pkgs_sub_childs hi ((h.pkgs i hi i).mpr hi)
+  refine ⟨hii, fun hmem => ?_⟩
+  have rij : QReachV g s.v2j i j := (h.reaches_iff hi hj).mp ht
+  have rji : QReachV g s.v2j j i := by
+    rcases mem_union.mp hmem with hm | hm
+    · exact SameJobV.reach ⟨j, hj, (h.pkgs j hj i).mp hm⟩
+    · exact (h.childs j hj i).mp hm
+  obtain ⟨k, h1, h2⟩ := h.acyclic i j rij rji (by rw [hi]; simp)
+  rw [hi] at h1; rw [hj] at h2
+  cases h1; cases h2
+  exact hij rfl
 
 /-- the merge loops keep the invariant for every list of names, processed in any order -/
 theorem merge_loops_any_order {s : St} (L : List Str) (h : Inv g n s) (hN : NamesOk s.names s) :
@@ -209,6 +227,14 @@ theorem job_graph_acyclic_partial (iso : Str → Bool) (pfx : Str) (wf : WF g n 
         exact (names_unique_partial iso pfx wf hfresh hfold hv hw).mpr hs
       · obtain ⟨k, hk, _⟩ := hs; exact absurd (by rw [hk]; simp) hv)
     (fun v w hv hw he => (names_unique_partial iso pfx wf hfresh hfold hv hw).mp he)
+
+/-- `genJenkinsBuildOrder` never reports "Jobs are cyclic" (under the same hypotheses) -/
+theorem build_order_never_cyclic_partial (iso : Str → Bool) (pfx : Str) (wf : WF g n roots)
+    (hfresh : NumberingFresh (finalNames g (sanitizeSt g n iso roots)))
+    (hfold : FoldInjective n pfx (sanitize g n iso roots)) {jobs : List JJob}
+    (hjobs : genJobs g n pfx (sanitize g n iso roots) roots = some jobs) :
+    (buildOrder jobs).isSome = true :=
+  buildOrder_isSome (job_graph_acyclic_partial iso pfx wf hfresh hfold hjobs)
 
 /-! ## witnesses -/
 
